@@ -50,6 +50,7 @@ type vfNetSim struct {
 	ctr    map[string]uint64
 	stats  map[string]int64
 	closed bool
+	links  map[string]chan vfFifoItem
 	// filter, if set, may rewrite or swallow an outgoing datagram before the fate is drawn
 	// (return nil to swallow). from/to are "ip:port" strings.
 	filter func(from, to string, p []byte) []byte
@@ -80,6 +81,10 @@ func (n *vfNetSim) Start() error { n.start = time.Now(); return n.router.Start()
 func (n *vfNetSim) Stop() {
 	n.mu.Lock()
 	n.closed = true
+	for _, ch := range n.links {
+		close(ch)
+	}
+	n.links = nil
 	n.mu.Unlock()
 	_ = n.router.Stop()
 }
@@ -92,6 +97,38 @@ func (n *vfNetSim) stat(k string) {
 
 func (n *vfNetSim) faultsActive(elapsedMs int) bool {
 	return n.cfg.FaultsUntilMs == 0 || elapsedMs < n.cfg.FaultsUntilMs
+}
+
+type vfFifoItem struct {
+	at time.Time
+	f  func()
+}
+
+// fifo delivers the items of one link in submission order, each not before its time.
+func (n *vfNetSim) fifo(link string, at time.Time, f func()) {
+	n.mu.Lock()
+	if n.links == nil {
+		n.links = map[string]chan vfFifoItem{}
+	}
+	ch := n.links[link]
+	if ch == nil {
+		ch = make(chan vfFifoItem, 4096)
+		n.links[link] = ch
+		go func() {
+			for it := range ch {
+				if d := time.Until(it.at); d > 0 {
+					time.Sleep(d)
+				}
+				it.f()
+			}
+		}()
+	}
+	n.mu.Unlock()
+	select {
+	case ch <- vfFifoItem{at, f}:
+	default:
+		n.stat("fifo_overflow_drop")
+	}
 }
 
 func vfPktKind(p []byte) string {
@@ -159,9 +196,15 @@ func (n *vfNetSim) send(from, to string, p []byte, deliver func([]byte)) {
 		delay += time.Duration(u(3)*float64(n.cfg.JitterUs)) * time.Microsecond
 	}
 	dup := n.faultsActive(el) && u(4) < n.cfg.Dup
-	if delay <= 0 {
+	switch {
+	case delay <= 0:
 		deliver(b)
-	} else {
+	case n.cfg.JitterUs == 0:
+		// constant delay: a link is a FIFO (timers that expire at the same fake instant run in no
+		// particular order, which would reorder a fault-free link)
+		n.stat("delayed")
+		n.fifo(link, time.Now().Add(delay), func() { deliver(b) })
+	default:
 		n.stat("delayed")
 		time.AfterFunc(delay, func() { deliver(b) })
 	}
